@@ -94,7 +94,16 @@ def run(inp, out):
 
 
 if __name__ == "__main__":
-    if sys.argv[1] == "gen":
+    if sys.argv[1] == "gen2":
+        # second sweep: only the role-swap operators, only the algebra layer
+        import pv.mutation as _m
+
+        _m.SEMANTIC_OPS = True
+        _orig_sites = _m.sites
+        sites = lambda fn: [x for x in _orig_sites(fn) if x[0].split(":")[0] in ("name-swap", "attr-swap", "call-swap")]  # noqa: E731
+        SKIP_FILES = ("plots.py", "polyhedra.py", "serializer.py", "grammar.py", "data.py", "errors.py", "fileio.py")
+        gen(sys.argv[2])
+    elif sys.argv[1] == "gen":
         gen(sys.argv[2])
     else:
         run(sys.argv[2], sys.argv[3])
